@@ -82,10 +82,10 @@ let fingerprint (s : cubic vsock) =
     string_of_int rk; r1; r2; r3; r4; r5; string_of_bool s.v_recovery.rv_supports_sack;
     string_of_bool s.v_transport_pending ]
   ^ "|" ^ C_segs.digest s.v_segs
-  ^ "|" ^ Printf.sprintf "%s,%s,%s,%s,%s%s%s%s" (string_of_z rx.filled_front) (string_of_z rx.ooq_len)
+  ^ "|" ^ Printf.sprintf "%s,%s,%s,%s,%s%s%s%s,%s" (string_of_z rx.filled_front) (string_of_z rx.ooq_len)
             (string_of_z rx.ooq_len_bytes) (string_of_z rx.q_len_bytes) (string_of_bool rx.disp_waker)
             (string_of_bool rx.reader_waker) (string_of_bool rx.reader_dropped)
-            (string_of_bool rx.vsock_closed)
+            (string_of_bool rx.vsock_closed) (string_of_z rx.last_remaining_rx_window)
   ^ "|" ^ Printf.sprintf "%d:%d,%s,%s%s%s%s%s" (List.length tx.ring) (hash_bytes tx.ring)
             (string_of_z tx.cap) (string_of_bool tx.t_vsock_closed) (string_of_bool tx.writer_dropped)
             (string_of_bool tx.writer_shutdown) (string_of_bool tx.t_disp_waker)
@@ -209,6 +209,7 @@ let vfp_of_string (fp : string) : vfp =
       f_rx_qbytes = z_of_string r.(3);
       f_rx_disp_waker = bool_of r.(4).[0]; f_rx_reader_waker = bool_of r.(4).[1];
       f_rx_reader_dropped = bool_of r.(4).[2]; f_rx_closed = bool_of r.(4).[3];
+      f_rx_last_remaining = z_of_string r.(5);
       f_tx_len = z_of_string tlen; f_tx_cap = z_of_string t.(1);
       f_tx_closed = bool_of t.(2).[0]; f_tx_writer_dropped = bool_of t.(2).[1];
       f_tx_writer_shutdown = bool_of t.(2).[2]; f_tx_disp_waker = bool_of t.(2).[3];
@@ -343,6 +344,7 @@ let step_preds : (string * (vconfig -> fstep -> bool)) list = [
   ("c07_pre_monitor", c07_pre_monitor);
   ("c07_delayed_ok", c07_delayed_ok);
   ("c07_fires_ok", c07_fires_ok);
+  ("c07_window_update_ok", c07_window_update_ok);
   ("c18_nagle_ok", c18_nagle_ok);
   ("c18_pre_monitor", c18_pre_monitor);
   ("c17_synack_ok", c17_synack_ok);
